@@ -219,5 +219,14 @@ PROPS['C04'] = dict(
          U('flag_n4_rips', 'C04_flag.cpp', ['VP_N=4', 'VP_WMAX=2', 'VP_RIPS', 'VP_NOEDGEFLAG'], weight=8, must_reach=['end', 'rips']), U('flag_n3_double', 'C04_flag.cpp', ['VP_N=3', 'VP_WMAX=2', 'VP_FT=double', 'VP_BLOCK'], weight=4, must_reach=['end']),
          U('flag_n5', 'C04_flag.cpp', ['VP_N=5', 'VP_WMAX=1'], tiers=['thorough'], weight=40, must_reach=['end']), U('flag_n4_double_block', 'C04_flag.cpp', ['VP_N=4', 'VP_WMAX=2', 'VP_FT=double', 'VP_BLOCK'], tiers=['thorough'], weight=40, must_reach=['end'])])
 
+# ------------------------------------------------------------------------------------------------ C03
+PROPS['C03'] = dict(
+  explanation='Bounded symbolic execution of the real Simplex_tree::filtration_simplex_range (sort + comparator), make_filtration_non_decreasing, prune_above_filtration, extend_filtration and decode_extended_filtration (clang IR of the headers in /repo) on symbolic face-closed shapes with symbolic filtration values (ties, non-monotone assignments, NaN and infinities where documented; finite-grid doubles with host IEEE arithmetic for the extended filtration). The schedule/sort independence is reduced to the comparator being a strict total order consistent with values and faces (the contract of std::stable_sort / tbb::parallel_sort is trusted), plus equal sequences for different insertion histories and option sets.',
+  bounds=dict(quick='all face-closed complexes on 3 vertices; values 0..2 (order and monotonisation), + NaN and +-inf thresholds (pruning); extended filtration with vertex values on {0,0.5,..,2}', thorough='4 vertices: full tetrahedron boundary and all shapes with values 0..1'),
+  outside=['real TBB execution / thread schedules (the engine is sequential; covered through the comparator contract)', 'more than 4 vertices', 'Bitmap_cubical_complex::filtration_simplex_range (checked under C13)'],
+  units=[U('order_n3', 'C03_filtration.cpp', ['VP_MODE=0', 'VP_N=3', 'VP_VMAX=2'], weight=10), U('monotonise_n3', 'C03_filtration.cpp', ['VP_MODE=1', 'VP_N=3', 'VP_VMAX=2'], weight=6), U('prune_n3', 'C03_filtration.cpp', ['VP_MODE=2', 'VP_N=3', 'VP_VMAX=2'], weight=8),
+         U('extended_n3', 'C03_filtration.cpp', ['VP_MODE=3', 'VP_N=3', 'VP_VMAX=2'], weight=8),
+         U('order_n4', 'C03_filtration.cpp', ['VP_MODE=0', 'VP_N=4', 'VP_VMAX=1'], tiers=['thorough'], weight=40), U('monotonise_n4', 'C03_filtration.cpp', ['VP_MODE=1', 'VP_N=4', 'VP_VMAX=1'], tiers=['thorough'], weight=30), U('prune_n4', 'C03_filtration.cpp', ['VP_MODE=2', 'VP_N=4', 'VP_VMAX=1'], tiers=['thorough'], weight=30), U('extended_n4', 'C03_filtration.cpp', ['VP_MODE=3', 'VP_N=4', 'VP_VMAX=1'], tiers=['thorough'], weight=30)])
+
 NOT_APPLICABLE = {}
 NOTES = 'Clauses outside every claim: real thread schedules/TBB execution (engine is sequential), iostream text I/O, GMP arbitrary precision, Eigen-based Coxeter point location under general affine maps, SIMD paths of boost::unordered_flat_map (compiled with -U__SSE2__), allocation failure, inputs beyond the stated bounds.'
